@@ -103,6 +103,43 @@ def directed():
     f["recipes/d.yaml"] = 'buildScript: "true"\npackageScript: "echo d"\n'
     f["recipes/sb.yaml"] = 'buildScript: "true"\npackageScript: "echo sb"\nprovideSandbox:\n    paths: ["/bin"]\n'
     out.append(("instances-differ", f, {"roots": ["r1", "r2"], "prefix": "", "isolate": None, "short": False, "sandbox": "yes"}))
+    # shapes whose merge decisions depend on the propagation of `childs` (must NOT fail):
+    # variants by environment: B(1) -> p -> A(1) ; A(2) -> B(2).  After merging A, B(1) reaches B(2) only through
+    # the *grand* parent update of addChilds
+    def var(name, cond_dep=None, val=None):
+        t = 'packageVars: [V]\nbuildScript: "true"\npackageScript: "echo %s $V"\n' % name
+        if cond_dep:
+            t = 'depends:\n    - name: %s\n      if: "$(eq,${V:-},%s)"\n' % (cond_dep, val) + t
+        return t
+    f = _cfg()
+    f["recipes/root.yaml"] = ('root: True\ndepends:\n    - name: B\n      environment: {V: "1"}\n    - name: A\n      environment: {V: "2"}\n'
+                              'buildScript: "true"\npackageScript: "echo root"\n')
+    f["recipes/B.yaml"] = var("B", "p", "1")
+    f["recipes/p.yaml"] = 'depends: [A]\nbuildScript: "true"\npackageScript: "echo p"\n'
+    f["recipes/A.yaml"] = var("A", "B", "2")
+    out.append(("propagate-grandparent", f, {"roots": ["root"], "prefix": "", "isolate": None, "short": False, "sandbox": "no"}))
+    # E(1) -> A(1) ; A(2) -> C(2) ; C(3) -> E(3): after merging A and then C, E(1) reaches E(3) only if the
+    # propagation from C finds the *merged* job of A(2) through vidToJob
+    f = _cfg()
+    f["recipes/root.yaml"] = ('root: True\ndepends:\n    - name: E\n      environment: {V: "1"}\n    - name: A\n      environment: {V: "2"}\n'
+                              '    - name: C\n      environment: {V: "3"}\nbuildScript: "true"\npackageScript: "echo root"\n')
+    f["recipes/E.yaml"] = var("E", "A", "1")
+    f["recipes/A.yaml"] = var("A", "C", "2")
+    f["recipes/C.yaml"] = var("C", "E", "3")
+    out.append(("propagate-merged", f, {"roots": ["root"], "prefix": "", "isolate": None, "short": False, "sandbox": "no"}))
+    # a tool: its provider must get a job although it is no argument of any step
+    f = _cfg()
+    f["recipes/root.yaml"] = ('root: True\ndepends:\n    - name: tp\n      use: [tools]\nbuildTools: [T]\n'
+                              'buildScript: "true"\npackageScript: "echo root"\n')
+    f["recipes/tp.yaml"] = 'depends: [lib]\nbuildScript: "true"\npackageScript: "echo tp"\nprovideTools:\n    T: "."\n'
+    f["recipes/lib.yaml"] = 'buildScript: "true"\npackageScript: "echo lib"\n'
+    out.append(("tool-only", f, {"roots": ["root"], "prefix": "x-", "isolate": "^l", "short": True, "sandbox": "yes"}))
+    # isolate is decided on the package name (m-dev), not on the recipe name (m)
+    f = _cfg()
+    f["recipes/root.yaml"] = 'root: True\ndepends: [m-dev, m-tgt, m-doc]\nbuildScript: "true"\npackageScript: "echo root"\n'
+    f["recipes/m.yaml"] = ('multiPackage:\n    dev:\n        packageScript: "echo m-dev"\n    tgt:\n        packageScript: "echo m-tgt"\n'
+                           '    doc:\n        packageScript: "echo m-doc"\n')
+    out.append(("isolate-multi", f, {"roots": ["root"], "prefix": "", "isolate": "-dev$", "short": False, "sandbox": "no"}))
     # plain multiPackage shape that must NOT fail: m-a -> x -> m-b
     f = _cfg()
     f["recipes/m.yaml"] = ('multiPackage:\n    a:\n        root: True\n        depends: [x]\n        buildScript: "true"\n'
@@ -273,10 +310,12 @@ def oracle(ctx):
         if _evaluate(ctx, o, meta[c["id"]]):
             cache["results"].append((o, meta[c["id"]]))
     # the directed shapes must behave as recorded: the multiPackage shape is fine, the others show the known clash
-    ok = res.get("directed-multi-ok")
-    if ok is not None and (ok["status"] != "ok" or ok.get("order") != "ok"):
-        ctx.violation("multiPackage m-a -> x -> m-b does not give an acyclic job graph: %s" % (ok.get("order") or ok.get("error")),
-                      dict(_record(meta["directed-multi-ok"]), signature="multipackage-shape-fails"), "multipackage-shape-fails")
+    for name in ("multi-ok", "propagate-grandparent", "propagate-merged", "tool-only", "isolate-multi"):
+        ok = res.get("directed-" + name)
+        if ok is not None and (ok["status"] != "ok" or ok.get("order") != "ok"):
+            ctx.violation("the project '%s' (acyclic recipes, no name clash) does not give an acyclic job graph: %s"
+                          % (name, ok.get("order") or ok.get("error") or ok.get("gen_error")),
+                          dict(_record(meta["directed-" + name]), signature="directed-shape-fails"), "directed-shape-fails")
     cache["budget_used"] = time.time() - t0
 
 
@@ -304,7 +343,7 @@ def _compare(ctx, o, meta, m):
         ma = sorted(sorted(a) for a in m["abs"])
         if ma != o["abs"]:
             rel.append(("partition of variant-ids into abstract jobs after sanitize == Model.sanitizeSt", o["abs"], ma))
-    if "jobs" in o:
+    if "jobs" in o and not o["graph"].get("instances_differ"):
         ij = {k: [v["pkgs"], v["up"]] for k, v in o["jobs"].items()}
         if m["jobs"] is None:
             rel.append(("genJenkinsJobs == Model.genJobs", ij, "KeyError"))
@@ -314,6 +353,10 @@ def _compare(ctx, o, meta, m):
                 rel.append(("genJenkinsJobs (packages per job, upstream jobs) == Model.genJobs", ij, mj))
             if o["order"] != m["order"]:
                 rel.append(("genJenkinsBuildOrder cyclic/ok == Model.buildOrder", o["order"], m["order"]))
+    elif o["graph"].get("instances_differ"):
+        # package instances with one Jenkins variant-id but different dependency variant-ids: outside the model's
+        # abstraction (nodes are variant-ids); the crash this causes is reported by the oracle
+        ctx.count("corr", "instances-differ(job level not compared)")
     else:
         # genJenkinsJobs aborted.  A ParseError of Bob is an outcome the model does not have; an internal exception
         # together with a name clash is the known consequence of the clash (PartialIR upgrade) and was reported by the oracle
